@@ -135,7 +135,7 @@ def sweep(tier, only=None):
     """Run every kept seed against its own property's check (plus the extra properties listed below where a
     change is also expected to be caught elsewhere) and write seeded/RESULTS.md."""
     also = {"C01-A": ["C16"], "C05-A": ["C06"], "C06-A": ["C05"], "C11-B": ["C13"], "C01-B": ["C05"], "C16-A": ["C01"],
-            "C08-A": ["C06"], "C20-B": ["C07"], "C07-B": ["C04"], "C03-B": ["C02"], "C09-B": ["C02"]}
+            "C08-A": ["C06"], "C20-B": ["C07"], "C07-B": ["C04", "C01"], "C03-B": ["C02"], "C09-B": ["C02"]}
     lines = ["# Seeded changes vs checks (tier: %s)\n" % tier,
              "Each change was produced by an independent sub-agent given only the property text, confirmed in a scratch",
              "worktree of the pinned commit (demo fails with it, passes without, suite passes), then applied to /repo,",
